@@ -205,7 +205,8 @@ func (in *inst) Unmount(ctx context.Context, mountpoint string) error {
 type world struct {
 	r       *vf.Run
 	conc    bool
-	grpc    bool
+	grpc    bool // transport in use by the current process image
+	useGRPC bool // transport chosen for the case
 	dir     string
 	store   string
 	mps     []string
@@ -278,7 +279,7 @@ func installHooks() {
 }
 
 func newWorld(r *vf.Run, dir string, nMP int, useGRPC, conc bool) (*world, error) {
-	w := &world{r: r, dir: dir, grpc: useGRPC, conc: conc, mpIdx: map[string]int{}}
+	w := &world{r: r, dir: dir, grpc: useGRPC, useGRPC: useGRPC, conc: conc, mpIdx: map[string]int{}}
 	if err := os.MkdirAll(dir, 0o755); err != nil {
 		return nil, err
 	}
@@ -307,6 +308,7 @@ func (w *world) rootFor(tag int64, ctorFail bool) string {
 // startProc starts a manager process image: a new fusemanager.Server on the store path.
 func (w *world) startProc() error {
 	w.proc++
+	w.grpc = w.useGRPC
 	ctx := context.Background()
 	if !w.grpc {
 		fm, err := fusemanager.NewFuseManager(ctx, nil, nil, w.store, "")
